@@ -231,3 +231,21 @@ def bds60(hdg=None, ias=None, mach=None, baro_rate=None, ivv=None):
     if ivv is not None:
         mb = mb_set(mb, 46, 46, 1); mb = mb_set(mb, 47, 56, twos(ivv, 10))
     return mb
+
+def bds44(fom, wind_speed, wind_dir, temp_sign, temp, pressure, turb, humidity):
+    """meteorological routine report as squitterator reads it: FOM 1-4, wind status 5 + speed 6-14 + dir 15-23,
+    temperature sign 24 + value 25-34, pressure status 35 + 36-46, turbulence status 47 + 48-49, humidity status 50 + 51-56"""
+    mb = 0
+    mb = mb_set(mb, 1, 4, fom)
+    mb = mb_set(mb, 5, 5, 1); mb = mb_set(mb, 6, 14, wind_speed); mb = mb_set(mb, 15, 23, wind_dir)
+    mb = mb_set(mb, 24, 24, temp_sign); mb = mb_set(mb, 25, 34, temp)
+    mb = mb_set(mb, 35, 35, 1); mb = mb_set(mb, 36, 46, pressure)
+    mb = mb_set(mb, 47, 47, 1); mb = mb_set(mb, 48, 49, turb)
+    mb = mb_set(mb, 50, 50, 1); mb = mb_set(mb, 51, 56, humidity)
+    return mb
+
+def bds30(threat_multi=0, ara_first=0):
+    mb = 0x30 << 48
+    mb = mb_set(mb, 9, 9, ara_first)      # frame bit 41
+    mb = mb_set(mb, 28, 28, threat_multi)  # frame bit 60
+    return mb
